@@ -65,7 +65,7 @@ ASSUMPTIONS = [
     'an attribute that is only in attribute_stash and that the target block does not provide may or may not also be copied without prefix (undocumented); the `_old_` copy is required',
     'when the constituents of a bead disagree on an attribute in keep/must/stash any of their values is accepted and an inconsistent-data warning is required (doc: workflow 3, third bullet)',
     'cases with more than %d placements (disconnected fragments fit on every combination of residues) are skipped' % 24,
-    'reference atoms ([reference atoms] of .mapping files; unused by the shipped data, not in the statement) are not generated unless VERIF_C01_REFERENCES=1 (side finding in notes/C01.md)',
+    'reference atoms ([reference atoms] of .mapping files) are generated since finding F27 was fixed in /repo; VERIF_C01_REFERENCES=0 switches them off',
     'modification mappings are not generated (part shipped hands the shipped ones over, but no input atom carries modifications)',
     'resid is never in attribute_keep (the CLI passes it in attribute_stash)',
 ]
@@ -77,7 +77,7 @@ MAX_PLACEMENTS = 24
 # reference atom, including the input resid, over the new particle (see
 # notes/C01.md, side finding).  VERIF_C01_REFERENCES=1 switches them on; the
 # matcher below lets a known_findings entry exclude exactly these cases.
-WITH_REFERENCES = bool(os.environ.get('VERIF_C01_REFERENCES'))
+WITH_REFERENCES = os.environ.get('VERIF_C01_REFERENCES', '1') == '1'
 ELEMENTS = ['C', 'C', 'C', 'C', 'N', 'O', 'S', 'P', 'H', 'H', 'H', 'H']
 WEIGHTS = [2, 3, 0.5, 0.25, 1.5]
 
@@ -474,6 +474,12 @@ def _match_attrs(ty, atom):
     return attrs
 
 
+def _live_references(ty):
+    """Reference atoms that are (still) mapped: a later generation step may take atoms away from this mapping, and a
+    reference to an atom that is not part of the mapping is not a valid mapping file."""
+    return [(bead, atom) for bead, atom in ty.get('references', []) if ty['map'][atom]]
+
+
 def _spec_beads(beads, resid_offset=0, cg_offset=0):
     return [{'attrs': {k: v for k, v in _bead_attrs(bead).items() if k not in ('resid', 'charge_group')},
              'resid': (bead['resid'] or 1) + resid_offset, 'cg': (bead['cg'] or 1) + cg_offset} for bead in beads]
@@ -520,13 +526,13 @@ def build(case):
             for atom, entry in zip(ty['atoms'], ty['map']):
                 for bead, weight in entry:
                     builder.add_mapping({'atomname': atom['name']}, {'atomname': ty['beads'][bead]['name']}, weight)
-            for bead, atom in ty.get('references', []):
+            for bead, atom in _live_references(ty):
                 builder.add_reference({'atomname': ty['beads'][bead]['name']}, {'atomname': ty['atoms'][atom]['name']})
             mapping = builder.get_mapping('block')
         else:
             table = {atom['name']: {ty['beads'][bead]['name']: weight for bead, weight in entry}
                      for atom, entry in zip(ty['atoms'], ty['map']) if entry}
-            references = {ty['beads'][bead]['name']: ty['atoms'][atom]['name'] for bead, atom in ty.get('references', [])}
+            references = {ty['beads'][bead]['name']: ty['atoms'][atom]['name'] for bead, atom in _live_references(ty)}
             mapping = Mapping(aa_blocks[tidx], cg_blocks[tidx], mapping=table, references=references,
                               ff_from=ff_aa, ff_to=ff_cg, names=(ty['name'],), extra=(),
                               normalize_weights=normalize)
@@ -538,7 +544,7 @@ def build(case):
             {i: [tuple(x) for x in entry] for i, entry in enumerate(ty['map'])},
             _spec_beads(ty['beads']), ty['bead_edges'],
             {k: [(tuple(a), p, m) for a, p, m in v] for k, v in ty['interactions'].items()},
-            normalize=normalize, references={bead: atom for bead, atom in ty.get('references', [])}))
+            normalize=normalize, references={bead: atom for bead, atom in _live_references(ty)}))
     if multi is not None:
         t1, t2 = multi['types']
         ty1, ty2 = types[t1], types[t2]
